@@ -19,6 +19,8 @@ Record info := mk_info {
   iid : Z;                   (* identity of the object (position in the reported stream) *)
   iline : Z;
   icol : Z;
+  iendline : Z;
+  iendcol : Z;
   ispan : list Z;            (* origin_span, never empty (`origin_span or [line]`) *)
   icode : option ecode;
   ierror : bool;             (* severity == "error" (else "note") *)
@@ -26,8 +28,22 @@ Record info := mk_info {
   ionce : bool;              (* only_once *)
   imsg : string;
   iparent : option Z;        (* iid of parent_error *)
-  itarget : string           (* fine-grained target: carried, never read here *)
+  itarget : string;          (* fine-grained target: carried, never read here *)
+  ictx : Z;                  (* import_ctx, by identity of the context (compared with == only) *)
+  iprio : Z;                 (* priority *)
+  ihidden : bool             (* hidden (set by the many-errors limiter) *)
 }.
+Definition set_hidden (i : info) : info :=
+  mk_info (iid i) (iline i) (icol i) (iendline i) (iendcol i) (ispan i) (icode i) (ierror i) (iblocker i)
+          (ionce i) (imsg i) (iparent i) (itarget i) (ictx i) (iprio i) true.
+Definition unhide (i : info) : info :=
+  mk_info (iid i) (iline i) (icol i) (iendline i) (iendcol i) (ispan i) (icode i) (ierror i) (iblocker i)
+          (ionce i) (imsg i) (iparent i) (itarget i) (ictx i) (iprio i) false.
+
+(* an info as reported by Errors.report with default end position, context and priority *)
+Definition info0 (id line col : Z) (span : list Z) (code : option ecode) (error blocker once : bool)
+           (msg : string) (parent : option Z) (target : string) : info :=
+  mk_info id line col line (col + 1) span code error blocker once msg parent target 0 0 false.
 
 Definition dict := list (Z * list string).      (* ignored_lines[file]: insertion-ordered *)
 
